@@ -263,7 +263,7 @@ type tlSys struct {
 	burst         int
 	skew          time.Duration // the caller's clock relative to the process clock (the limiter must count on the caller's)
 	redisB        bucket        // the bucket kept in Redis
-	rescueB       bucket // the in-process bucket
+	rescueB       bucket        // the in-process bucket
 	up            bool
 	rescueMode    bool // the limiter believes Redis is down
 	admitted      []float64
@@ -532,12 +532,15 @@ func TestVerifTokenLimitRealOutage(t *testing.T) {
 func TestVerifLimitersConcurrent(t *testing.T) {
 	defer vrt.WriteReport()
 	limSetup()
-	if !vrt.Shard(10) {
-		return
-	}
 	bound := 2
 	if vrt.Thorough() {
 		bound = 3
+	}
+	if vrt.Shard(5) {
+		limRecoveryRace(bound)
+	}
+	if !vrt.Shard(10) {
+		return
 	}
 	// period limiter: quota 2, three concurrent takes of one key: exactly one Allowed, one
 	// HitQuota, one OverQuota, whatever the order
@@ -603,4 +606,44 @@ func TestVerifLimitersConcurrent(t *testing.T) {
 			}
 		})
 	}
+}
+
+func limRecoveryRace(bound int) {
+	// outage noticed by two callers while Redis comes back and the monitor finds it again:
+	// whatever the interleaving, once Redis has answered for a few monitor periods the
+	// limiter is back on Redis
+	vrt.Explore(vrt.Options{Name: "tokenlimit/concurrent/recovery-vs-late-failure", Bound: bound, Horizon: 1 << 30, Budget: vrt.FairBudget(1), Prune: true}, func(r *vrt.Run) {
+		vrt.SetRandHook(func() (int64, bool) { return vrt.FloatDraw(1 - 1.0/(1<<53)), true })
+		s := freshServer(r)
+		r.Cleanup(func() { s.SetError("") })
+		l := NewTokenLimiter(1, 4, redis.New(s.Addr()), "tl")
+		s.SetError("ERR verif outage")
+		now := vrt.Now()
+		var wg sync.WaitGroup
+		for i := 0; i < 2; i++ {
+			wg.Add(1)
+			go func() {
+				defer wg.Done()
+				l.AllowN(now, 1)
+			}()
+		}
+		wg.Add(1)
+		go func() {
+			defer wg.Done()
+			s.SetError("")
+			vrt.Advance(pingInterval)
+		}()
+		wg.Wait()
+		vrt.Settle()
+		for i := 0; i < 3; i++ {
+			vrt.AdvanceSettle(pingInterval)
+		}
+		before := s.CommandCount()
+		l.AllowN(vrt.Now(), 1)
+		reached := s.CommandCount() > before
+		r.Outcome("back-on-redis=%v", reached)
+		if !reached {
+			r.Failf("Redis has been answering for %v (several monitor periods) but the limiter still decides in process: it never went back to Redis", 4*pingInterval)
+		}
+	})
 }
